@@ -82,6 +82,10 @@ def query(formulas, timeout_ms=10000, want_vars=None, nice=True, keep_smt2=False
     smt2 = s.to_smt2() if keep_smt2 else None
     t = time.time()
     r = s.check()
+    if r not in (z3.unsat, z3.sat) and timeout_ms < 60000:
+        # undecided within the budget: one more attempt with six times the budget before it counts as inconclusive
+        s.set('timeout', timeout_ms * 6)
+        r = s.check()
     STATS['solver_s'] += time.time() - t
     STATS['queries'] += 1
     if r in (z3.unsat, z3.sat):
